@@ -3,7 +3,7 @@ from __future__ import annotations
 
 from typing import Any, Dict, List
 
-from sim.gen_worker import gen_worker_script
+from sim.gen_worker import gen_worker_script, tier_knobs
 from ._wcommon import (ASSUMPTIONS, COMPONENTS_REAL, COMPONENTS_STUB, Hist, Violation, default_nontrivial,  # noqa: F401
                        simplifications, simulate)
 
@@ -33,7 +33,7 @@ KNOBS = {
 
 
 def gen(rs: int, tier: str, index: int) -> dict:
-    s = gen_worker_script(rs, KNOBS)
+    s = gen_worker_script(rs, tier_knobs(KNOBS, tier, index))
     from sim.rng import stream
     r = stream(rs, "c01late")
     if r.random() < 0.25 and s["messages"]:
